@@ -273,6 +273,87 @@ def _work(part, nparts, payload):
     return st
 
 
+# ---- two independent managers in one process: nothing of one tree's event processing may happen in the other ------------------
+
+def two_managers_cases():
+    for ka in (1, 2, 3):
+        for kb in (0, 2):
+            for order in itertools.product('AB', repeat=6):
+                yield ka, kb, ''.join(order)
+
+
+def run_two_managers(case):
+    """plain Manager trees without any harness substitution (the trees keep the task sets the library gives them)"""
+    from circuits.core.components import BaseComponent
+    from circuits.core.events import Event
+    from circuits.core.handlers import handler
+    ka, kb, order = case
+    logs = {'A': [], 'B': []}
+    trees = {}
+    for tag, k in (('A', ka), ('B', kb)):
+        root = BaseComponent()
+
+        def make(tag, k):
+            def on_e(self, event, *a):
+                logs[tag].append(('enter', tag))
+                for i in range(k):
+                    yield None
+                    logs[tag].append(('step', tag, i))
+                yield tag + '-result'
+
+            def on_plain(self, event, *a):
+                logs[tag].append(('enter', tag))
+                return tag + '-result'
+
+            def on_success(self, event, e, value):
+                logs[tag].append(('success', getattr(e, 'tag', None), value))
+
+            def on_exc(self, event, *a, **kw):
+                logs[tag].append(('exception', repr(a[1]) if len(a) > 1 else None))
+            return (on_e if k else on_plain), on_success, on_exc
+        h, hs, hx = make(tag, k)
+        root.addHandler(handler('e')(h))
+        root.addHandler(handler('e_success')(hs))
+        root.addHandler(handler('exception', channel='*')(hx))
+        trees[tag] = root
+    values = {}
+    for tag in 'AB':
+        e = Event.create('e')
+        e.success = True
+        e.tag = tag
+        values[tag] = trees[tag].fire(e)
+    crashed = None
+    try:
+        for who in order:
+            trees[who].tick()
+        for _ in range(8):
+            for who in 'AB':
+                trees[who].tick()
+    except BaseException as exc:  # noqa: BLE001
+        crashed = repr(exc)
+    return logs, {t: (values[t].value, values[t].errors) for t in 'AB'}, crashed
+
+
+def judge_two_managers(case, logs, values, crashed):
+    bad = []
+    if crashed:
+        bad.append(('two-managers:crash', 'tick() raised %s' % crashed))
+    for tag in 'AB':
+        other = 'B' if tag == 'A' else 'A'
+        foreign = [x for x in logs[tag] if (x[0] in ('enter', 'step') and x[1] != tag) or (x[0] == 'success' and x[1] != tag)]
+        if foreign:
+            bad.append(('two-managers:foreign-activity', 'tree %s saw activity of tree %s: %r' % (tag, other, foreign[:3])))
+        succ = [x for x in logs[tag] if x[0] == 'success']
+        if succ != [('success', tag, tag + '-result')]:
+            bad.append(('two-managers:success', 'tree %s: e_success events %r, expected exactly one with its own result' % (tag, succ)))
+        if values[tag] != (tag + '-result', False):
+            bad.append(('two-managers:value', 'tree %s: value %r of its event, expected %r' % (tag, values[tag], (tag + '-result', False))))
+        excs = [x for x in logs[tag] if x[0] == 'exception']
+        if excs:
+            bad.append(('two-managers:exception', 'tree %s: exception events although no handler raised: %r' % (tag, excs[:2])))
+    return bad
+
+
 def prog_json(program):
     hs, fi, nested = program
     return {'handlers': [shapes(0)[si][0] for si in hs], 'hs': list(hs), 'flags_index': fi, 'flags': FLAGS[fi],
@@ -282,6 +363,13 @@ def prog_json(program):
 def run(tier, seed, workers):
     total = sum(1 for _ in programs(tier))
     st = core.parallel(_work, (tier, seed), workers, nparts=workers * 4)
+    for case in two_managers_cases():
+        logs, values, crashed = run_two_managers(case)
+        st.counters['two_manager_interleavings'] += 1
+        st.outcome(('two', case[0], case[1], tuple(map(tuple, logs['A'])), tuple(map(tuple, logs['B']))))
+        for kind, text in judge_two_managers(case, logs, values, crashed):
+            st.fail(kind, '%s  [generator steps A=%d B=%d, tick order %s then alternating]' % (text, case[0], case[1], case[2]),
+                    {'two_managers': list(case)})
     probe = ((2, 5), 15, None)
     a = execute(probe)[0].log
     b = execute(probe)[0].log
@@ -298,6 +386,13 @@ def run(tier, seed, workers):
 
 
 def replay(wit):
+    if 'two_managers' in wit:
+        case = tuple(wit['two_managers'])
+        logs, values, crashed = run_two_managers(case)
+        bad = judge_two_managers(case, logs, values, crashed)
+        text = 'two independent managers, case %r\nlogs %r\nvalues %r crashed %r\n' % (case, logs, values, crashed)
+        text += ''.join('VIOLATED %s: %s\n' % b for b in bad) or 'all clauses hold\n'
+        return (not bad), text
     nested = None if wit['nested'] is None else ((wit['nested'][0],) if len(wit['nested']) == 1 else (wit['nested'][0], tuple(wit['nested'][1])))
     program = (tuple(wit['hs']), wit['flags_index'], nested)
     w, e, s, quiescent, crashed = execute(program)
